@@ -99,7 +99,8 @@ func (i *zzInact) HandleInactive(ctx InactiveContext, ex Exception) {
 //	0 read loop (active/read events)    1 Channel.Write    2 Channel.Trigger
 //	3 ctx.Write from inside a read handler    4 ctx.Trigger from inside a read handler
 //
-// exmode: 0 no exception handler, 1 forwarding handler, 2 swallowing handler.
+// exmode: 0 no exception handler, 1 forwarding handler, 2 swallowing handler (both behind the failing handlers),
+// 3 forwarding, 4 swallowing handler in front of them.
 func ZZ_C07_Panic(entry, on, pval, exmode, pos, q int) {
 	tr := newZZTransport()
 	tr.readData = []byte{0x51}
@@ -112,10 +113,17 @@ func ZZ_C07_Panic(entry, on, pval, exmode, pos, q int) {
 	if entry == 4 {
 		bombs[0].inner = 2 // Trigger travels towards the tail: fired from the first handler, caught by the second
 	}
+	front := exmode >= 3 // the exception handler sits in front of the failing handlers (exceptions travel from the head)
+	if front {
+		exmode -= 2
+	}
 	exc := &zzExc{mode: exmode}
 	inact := &zzInact{}
+	if front {
+		pl.AddLast(exc)
+	}
 	pl.AddLast(bombs[0], bombs[1])
-	if exmode != 0 {
+	if exmode != 0 && !front {
 		pl.AddLast(exc)
 	}
 	pl.AddLast(inact)
